@@ -143,6 +143,7 @@ func judgeText(slot int, text, origin string, t *tally) (class, detail string) {
 		t.add("impl_errors", 1)
 		if ref.Verdict == refsnbt.Accept {
 			t.add("ref_accepts_impl_errors", 1)
+			noteRefused(text, ref, o.err)
 		}
 		return "", ""
 	}
@@ -187,6 +188,36 @@ func judgeText(slot int, text, origin string, t *tally) (class, detail string) {
 			fmt.Sprintf("Marshal(StringifiedMessage(%q)) produced %s; the text denotes %s", clipS(text, 120), treeStr(tree), treeStr(ref.Tree))
 	}
 	return "", ""
+}
+
+// Texts of the valid core that the implementation refuses: not a violation of the statement
+// (see Assume in main), but reported in evidence notes with the smallest text per shape.
+var (
+	refusedMu sync.Mutex
+	refused   = map[string]string{}
+)
+
+func noteRefused(text string, ref refsnbt.Result, err error) {
+	shape := treeSig(ref.Tree, 2)
+	if f, ok := ref.Forms[ref.Tree]; ok {
+		shape = "lit:" + f
+	}
+	refusedMu.Lock()
+	if old, ok := refused[shape]; !ok || len(text) < len(old) || len(text) == len(old) && text < old {
+		refused[shape] = text
+	}
+	refusedMu.Unlock()
+}
+
+func flushRefused() {
+	keys := make([]string, 0, len(refused))
+	for k := range refused {
+		keys = append(keys, k)
+	}
+	sort.Strings(keys)
+	for _, k := range keys {
+		rep.Note("valid text refused by the implementation (not judged): shape %s, smallest %q", k, clipS(refused[k], 80))
+	}
 }
 
 // runText judges one text and records a failure.
